@@ -455,6 +455,10 @@ class Interp:
                 except (TypeError, ValueError):
                     raise Unsupported(f"Decimal({v!r})")
                 return Scalar(x, x)
+            if len(e.args) == 1:
+                v = self.eval(e.args[0], env)
+                if isinstance(v, Scalar):
+                    return v
             raise Unsupported(f"Decimal of non-constant {ast.unparse(e)}")
         if fname == "abs":
             v = self.eval(e.args[0], env)
